@@ -152,7 +152,9 @@ def _line_of(src, off):
 
 
 class FunctionExtractor:
-    def __init__(self, cpp_rel, qualname, alias=None):
+    def __init__(self, cpp_rel, qualname, alias=None, decl_file=None):
+        # decl_file: the definition sits in a header (inline constructor); cpp_rel is the translation unit that is parsed
+        self.decl_file = os.path.join(INC, decl_file) if decl_file else None
         self.cpp = os.path.join(SRC, cpp_rel) if not os.path.isabs(cpp_rel) else cpp_rel
         self.cpp_rel = cpp_rel
         self.qual = qualname
@@ -181,10 +183,16 @@ class FunctionExtractor:
             visit(o)
         # keep those defined in the main file
         good = []
+        want = os.path.abspath(self.decl_file or self.cpp)
+        wsrc = open(want, 'rb').read().decode('latin-1')
         for o in cands:
             loc = o.get('loc', {})
             f = loc.get('file') or loc.get('expansionLoc', {}).get('file')
-            if f is None or os.path.abspath(f) == os.path.abspath(self.cpp):
+            off = loc.get('offset')
+            nm = o.get('name', '')
+            # clang omits 'file' when it is unchanged from the previous node: validate by the token at the offset
+            at = off is not None and wsrc[off:off + len(nm)] == nm
+            if (f is None and at) or (f is not None and os.path.abspath(f) == want and at):
                 good.append(o)
         if '::' in self.qual:
             cls = self.qual.split('::')[0]
@@ -199,7 +207,8 @@ class FunctionExtractor:
         return good[0]
 
     def extract(self):
-        with open(self.cpp, 'rb') as f:
+        self.srcfile = self.decl_file or self.cpp
+        with open(self.srcfile, 'rb') as f:
             raw = f.read()
         try:
             src = raw.decode('utf-8')
@@ -259,9 +268,18 @@ class FunctionExtractor:
                     if not ai:
                         raise ExtractionError('base/delegating initialiser not supported in ' + self.qual)
                     e = c['inner'][0]
+                    ty = _strip_const(ai['type']['qualType'])
+                    if e.get('kind') == 'CXXConstructExpr':
+                        # member sub-object initialised by its own constructor: member(args) -> T__ctor(&self->member, args)
+                        atx = []
+                        for a in e.get('inner', []) or []:
+                            self.walk(a)
+                            atx.append(self.render(_off(a['range']['begin']), _end(a['range']['end'])))
+                        init_stmts.append('%s__ctor((%s*)&self->%s%s);' % (ty, ty, ai['name'], ''.join(', ' + x for x in atx)))
+                        self.rules.append('R5')
+                        continue
                     self.walk(e)
                     etxt = self.render(_off(e['range']['begin']), _end(e['range']['end']))
-                    ty = _strip_const(ai['type']['qualType'])
                     init_stmts.append('*(%s*)&self->%s = (%s);' % (ty, ai['name'], etxt))
         # ---- body
         self.walk(body)
@@ -275,19 +293,19 @@ class FunctionExtractor:
         line = _line_of(src, bb)
         sline = _line_of(src, fb)
         out = []
-        out.append('#line %d "%s"' % (sline, self.cpp))
+        out.append('#line %d "%s"' % (sline, self.srcfile))
         out.append(sig)
         out.append('#ifdef CONTRACT_%s' % self.fname)
         out.append('CONTRACT_%s' % self.fname)
         out.append('#endif')
-        out.append('#line %d "%s"' % (line, self.cpp))
+        out.append('#line %d "%s"' % (line, self.srcfile))
         out.append(btxt)
         text = '\n'.join(out) + '\n'
         if self.latin:
             text = text.encode('latin-1').decode('utf-8', errors='replace')
         real = src[fb:fe]
         return {
-            'file': self.cpp, 'function': self.qual, 'c_name': self.fname,
+            'file': self.srcfile, 'function': self.qual, 'c_name': self.fname,
             'byte_range': [fb, fe], 'line': sline,
             'sha256_source': hashlib.sha256(real.encode('latin-1' if self.latin else 'utf-8')).hexdigest(),
             'sha256_extracted': hashlib.sha256(text.encode('utf-8')).hexdigest(),
@@ -515,6 +533,18 @@ class FunctionExtractor:
             self.ed.replace(b, e, '{ void* verif_swap_t = (void*)(%s); (%s) = (%s); (%s) = verif_swap_t; }' % (a, a, bb, bb))
             self.rules.append('R6')
             return
+        if t.get('kind') == 'DeclRefExpr' and t.get('referencedDecl', {}).get('kind') == 'CXXMethodDecl':
+            # R11: call of a static member function  A::f(args) -> A__f(args)
+            b = _off(t['range']['begin'])
+            e = _end(t['range']['end'])
+            txt = self.src[b:e]
+            if '::' not in txt:
+                raise ExtractionError('unqualified static method call')
+            self.ed.replace(b, e, txt.replace('::', '__'))
+            self.rules.append('R11')
+            for c in n['inner'][1:]:
+                self.walk(c)
+            return
         for c in n['inner']:
             self.walk(c)
 
@@ -591,6 +621,25 @@ class SamplerExtractor(FunctionExtractor):
         raise ExtractionError('constructor expression outside new in ' + self.qual)
 
 
+def references(cpp_rel, qualname):
+    """names of every declaration referenced from the body of a function (macro expansions included): supporting static fact"""
+    fx = FunctionExtractor(cpp_rel, qualname)
+    d = fx.find_decl()
+    out = set()
+
+    def walk(n):
+        if n.get('kind') == 'DeclRefExpr':
+            rd = n.get('referencedDecl', {})
+            if rd.get('name'):
+                out.add(rd['name'])
+        if n.get('kind') == 'MemberExpr' and n.get('name'):
+            pass
+        for c in n.get('inner', []) or []:
+            walk(c)
+    walk(d)
+    return out
+
+
 def extract_template_macro():
     """tfhe_generic_templates.h: the USE_DEFAULT_CONSTRUCTOR_DESTRUCTOR_IMPLEMENTATIONS1 macro text,
     copied verbatim from the real header (it sits inside #ifdef __cplusplus / namespace tfhe)."""
@@ -628,7 +677,7 @@ def extract_many(specs):
     man = []
     for s in specs:
         cls = SamplerExtractor if s.get('sampler') else FunctionExtractor
-        fx = cls(s['file'], s['function'], s.get('alias'))
+        fx = cls(s['file'], s['function'], s.get('alias'), s.get('decl_file'))
         r = fx.extract()
         texts.append(r.pop('text'))
         man.append(r)
